@@ -11,10 +11,10 @@ package builtin
 //@ func Transaction(th, args) (r)
 //@   nosafety
 //@   requires th != nil && len(args) >= 3
-//@   modifies all, gTran, gCompletes, gRollbacks, gBlockThrew
+//@   modifies all, gTran, gCompletes, gRollbacks, gBlockThrew, gBlockRet
 //@   ensures! block_form_ends: old(args[2]) != core.False ==> gTran.status != 0 && fresh(gTran)
 //@   ensures! completed_not_rolled_back: gRollbacks == old(gRollbacks)
 //@   ensures! exception_propagates: !recovered()
-//@   on_panic thrown_rolls_back: fresh(gTran) && gBlockThrew && panicvalue() != core.BlockReturn ==> gTran.status != 0 && gCompletes == old(gCompletes)
-//@   on_panic block_return_completes: fresh(gTran) && gBlockThrew && panicvalue() == core.BlockReturn ==> gRollbacks == old(gRollbacks)
+//@   on_panic thrown_rolls_back: fresh(gTran) && gBlockThrew && !gBlockRet ==> gTran.status != 0 && gCompletes == old(gCompletes)
+//@   on_panic block_return_completes: fresh(gTran) && gBlockThrew && gBlockRet ==> gRollbacks == old(gRollbacks)
 //@   on_panic always_ended: fresh(gTran) ==> gTran.status != 0
